@@ -177,6 +177,22 @@ def install():
         return r
 
     levyprocess.SimulationFixedTimes.pre_computation = pre_computation
+
+    # ---- uniforms as HANDED OUT by the library's own variate helper (a cache inside the helper would be invisible at
+    # the generator seam): values recorded only when the world asks for it
+    import rpylib.distribution.univariate.uniform as uni
+
+    orig_us = uni.Uniform.sample
+
+    def uniform_sample(self, size=1):
+        out = orig_us(self, size)
+        wd = _wd()
+        if wd is not None and getattr(wd, "track_uniforms", False):
+            arr = np.asarray(out, dtype=float).ravel()
+            wd.uniform_log.append((wd.run_index, wd.level, wd.current.name, id(self), arr.copy()))
+        return out
+
+    uni.Uniform.sample = uniform_sample
     _installed = True
 
 
@@ -185,3 +201,5 @@ def prepare_world(wd):
     wd.next_row_serial = 0
     wd.row_batches = []
     wd.chunk = None
+    wd.track_uniforms = False
+    wd.uniform_log = []
